@@ -152,6 +152,22 @@ def o_aggregate(ctx, case):
     got = S.Aggregate(sigs)
     ctx.check(isinstance(got, bytes) and got == want, "aggregate", "value", case,
               f"Aggregate = {got.hex() if isinstance(got, bytes) else got!r}, group sum encodes as {want.hex()}")
+    # the same signatures handed over in other iterable forms: a form the function does not support may be refused
+    # (TypeError / ValidationError), but whatever is RETURNED must be the aggregate
+    import collections
+    from eth_utils import ValidationError
+    forms = {"tuple": lambda: tuple(sigs), "iterator": lambda: iter(sigs), "generator": lambda: (x for x in sigs),
+             "deque": lambda: collections.deque(sigs), "reversed_twice": lambda: reversed(list(reversed(sigs)))}
+    for nm, mk in forms.items():
+        try:
+            g2_ = S.Aggregate(mk())
+        except (TypeError, ValidationError):
+            ctx.label(f"aggregate:form_refused:{nm}")
+            continue
+        ctx.check(isinstance(g2_, bytes) and g2_ == want, "aggregate", f"value_for_{nm}", case,
+                  f"Aggregate of the same signatures given as {nm} = {g2_.hex() if isinstance(g2_, bytes) else g2_!r}, "
+                  f"group sum encodes as {want.hex()}")
+        ctx.label(f"aggregate:form:{nm}")
     if "expect" in case:
         if want != unhx(case["expect"]):
             raise HarnessError("model disagrees with a published aggregate")
